@@ -13,9 +13,11 @@ import (
 	"encoding/json"
 	"fmt"
 	"math/big"
+	"regexp"
 	"sort"
 	"strings"
 
+	"goa.design/goa/v3/codegen"
 	"goa.design/goa/v3/expr"
 	"goa.design/goa/v3/http/codegen/openapi"
 
@@ -43,8 +45,13 @@ func decodeJSON(b []byte) any {
 func asMap(x any) map[string]any { m, _ := x.(map[string]any); return m }
 
 type schemaConv struct {
-	comps map[string]any // component / definition schemas by name
+	comps   map[string]any // component / definition schemas by name
+	shared  bool           // a $ref pointed at a component named after another type
+	top     string         // expected name of the component the top-level $ref points at ("" = unknown)
+	differs bool           // inside a shared component, a documented keyword is not the attribute's own
 }
+
+var trailingDigits = regexp.MustCompile(`[0-9]+$`)
 
 func numQ(x any) (string, bool) {
 	n, ok := x.(json.Number)
@@ -97,6 +104,22 @@ func (sc *schemaConv) term(js any, a *expr.AttributeExpr, depth int, transparent
 	if ref, ok := m["$ref"].(string); ok {
 		name := ref[strings.LastIndex(ref, "/")+1:]
 		comp := sc.comps[name]
+		if transparentRef && sc.top != "" {
+			if trailingDigits.ReplaceAllString(name, "") != trailingDigits.ReplaceAllString(codegen.Goify(sc.top, true), "") {
+				sc.shared = true
+			}
+		}
+		if a != nil {
+			if ut, ok := a.Type.(expr.UserType); ok && !expr.IsAlias(ut) {
+				want := codegen.Goify(ut.Name(), true)
+				if n, ok := ut.Attribute().Meta["name:original"]; ok && len(n) > 0 {
+					want = codegen.Goify(n[0], true)
+				}
+				if trailingDigits.ReplaceAllString(name, "") != trailingDigits.ReplaceAllString(want, "") {
+					sc.shared = true
+				}
+			}
+		}
 		var inner *expr.AttributeExpr
 		alias := false
 		if a != nil {
@@ -120,6 +143,9 @@ func (sc *schemaConv) term(js any, a *expr.AttributeExpr, depth int, transparent
 			return "(SRef 0)"
 		}
 		return sc.term(comp, inner, depth-1, false)
+	}
+	if sc.shared && a != nil && kwDiffers(m, a) {
+		sc.differs = true
 	}
 	jt := "JAny"
 	switch m["type"] {
@@ -247,6 +273,82 @@ func (sc *schemaConv) term(js any, a *expr.AttributeExpr, depth int, transparent
 	return fmt.Sprintf("(SNode %s %s %s %s %s %s)", jt, skw, vh.CoqList(req), vh.CoqList(pterms), items, addl)
 }
 
+// kwDiffers: the validation keywords written in the documented schema m are not those of
+// attribute a (used only to tell a harmless shared schema from one that documents the
+// validations of another type).
+func kwDiffers(m map[string]any, a *expr.AttributeExpr) bool {
+	val := effectiveValidation(a)
+	if val == nil {
+		val = &expr.ValidationExpr{}
+	}
+	num := func(k string) (float64, bool) {
+		n, ok := m[k].(json.Number)
+		if !ok {
+			return 0, false
+		}
+		f, err := n.Float64()
+		return f, err == nil
+	}
+	cmpF := func(k string, p *float64) bool {
+		f, ok := num(k)
+		return ok != (p != nil) || (ok && f != *p)
+	}
+	cmpI := func(k string, p *int) bool {
+		f, ok := num(k)
+		return ok != (p != nil) || (ok && int(f) != *p)
+	}
+	isArr := expr.AsArray(underlying(a).Type) != nil
+	var minL, maxL, minI, maxI *int
+	if isArr {
+		minI, maxI = val.MinLength, val.MaxLength
+	} else {
+		minL, maxL = val.MinLength, val.MaxLength
+	}
+	if cmpF("minimum", val.Minimum) || cmpF("maximum", val.Maximum) || cmpF("exclusiveMinimum", val.ExclusiveMinimum) || cmpF("exclusiveMaximum", val.ExclusiveMaximum) ||
+		cmpI("minLength", minL) || cmpI("maxLength", maxL) || cmpI("minItems", minI) || cmpI("maxItems", maxI) {
+		return true
+	}
+	p, _ := m["pattern"].(string)
+	if p != val.Pattern {
+		return true
+	}
+	if es, ok := m["enum"].([]any); ok != (val.Values != nil) || (ok && len(es) != len(val.Values)) {
+		return true
+	}
+	if f, _ := m["format"].(string); val.Format != "" && f != string(val.Format) {
+		return true
+	}
+	if _, known := formatIDs[fmt.Sprint(m["format"])]; known && val.Format == "" {
+		return true
+	}
+	// required attributes
+	want := map[string]bool{}
+	if o := expr.AsObject(underlying(a).Type); o != nil {
+		ua := a
+		if ut, ok := a.Type.(expr.UserType); ok {
+			ua = ut.Attribute()
+		}
+		for _, nat := range *o {
+			if ua.IsRequired(nat.Name) {
+				want[nat.Name] = true
+			}
+		}
+	}
+	got := map[string]bool{}
+	for _, r := range asSlice(m["required"]) {
+		got[fmt.Sprint(r)] = true
+	}
+	if len(got) != len(want) {
+		return true
+	}
+	for k := range want {
+		if !got[k] {
+			return true
+		}
+	}
+	return false
+}
+
 // dumpSchemas runs json_schema.go's builder on every element while the design is live.
 func dumpSchemas(root *expr.RootExpr, d *dg.Design, ex *extracted) *schemaDump {
 	sd := &schemaDump{v2: map[string]string{}}
@@ -309,7 +411,9 @@ func schemaCases(res *vh.Result, items []*built) []string {
 			continue
 		}
 		comps := asMap(asMap(doc["components"])["schemas"])
-		sc := &schemaConv{comps: comps}
+		if it.ex.shared == nil {
+			it.ex.shared = map[string]bool{}
+		}
 		paths := asMap(doc["paths"])
 		var names []string
 		for n := range it.ex.endpoints {
@@ -348,7 +452,15 @@ func schemaCases(res *vh.Result, items []*built) []string {
 					res.Count("schema_missing_for_" + e.Kind)
 					return
 				}
+				sc := &schemaConv{comps: comps, top: e.BodyType}
 				real3 := sc.term(js, e.Att, schemaDepth, top)
+				if sc.shared && sc.differs {
+					// the attribute is documented by the schema of another, structurally equal type
+					it.ex.shared[name] = true
+					failSig(res, "schema-shared-by-structurally-equal-types", "openapi3.json documents "+name+" "+tag+" "+e.Kind+" "+e.Name+" with the schema generated for another type of equal structure (validations are not part of the type hash)",
+						map[string]any{"design": it.bu.Design, "endpoint": name, "element": tag})
+					return
+				}
 				v2 := "None"
 				if it.ex.v3 != nil {
 					if t, ok := it.ex.v3.v2[fmt.Sprintf("%s|%s|%d", name, tag, i)]; ok {
